@@ -116,6 +116,9 @@ MOLS = {
     "HeH": dict(atom="He 0 0 0; H 0 0 0.9", spin=1),
     "He": dict(atom="He 0 0 0", spin=0),
     "NH2": dict(atom="N 0 0 0; H 0 0.8 0.6; H 0 -0.8 0.6", spin=1),
+    "H": dict(atom="H 0 0 0", spin=1),                       # one electron: the beta channel is exactly empty
+    # a ghost centre: basis functions without a nucleus (counterpoise set-ups); it owns no atomic grid
+    "H2O_ghost": dict(atom="O 0 0 0.1; H 0 0.757 0.587; H 0 -0.757 0.587; ghost-He 0 0 1.6", spin=0),
 }
 
 
